@@ -1,11 +1,12 @@
 (* C08 — unified() merges exactly the records sharing an identifier.
    Proved here: the source is left unchanged, the result is a new document, and
-   unification is the identity when no two records share kind and identifier.  The
-   merge specification itself (attribute union per group, conflict iff raise) is
-   stated and, so far, established by the correspondence run and the independent
-   merge oracle of this check (partial). *)
+   unification is the identity when no two records share kind and identifier, and the
+   grouping half of the merge specification: one record per (kind, identifier) group and
+   every anonymous record, in first-occurrence order.  The attribute half (union per
+   group, conflict iff raise) is established by the correspondence run and the
+   independent merge oracle of this check (partial). *)
 From Coq Require Import String List Arith ZArith.
-From Prov Require Import Str Sexp Tables Nsm Values Record World Interp InterpProofs.
+From Prov Require Import Str Sexp Tables Nsm Values Record World Interp InterpProofs UnifyProofs.
 Import ListNotations.
 Open Scope string_scope.
 
@@ -50,19 +51,17 @@ Proof.
 Qed.
 Print Assumptions C08_no_reuse_identity.
 
-(* the full statement, not yet proved *)
-Definition C08_spec_statement : Prop :=
-  forall ft b u, unified_records ft b = OK u ->
-    (* every (kind, identifier) group of b is one record of u with the union of the
-       attribute sets; anonymous records are kept; first-occurrence order *)
-    map (fun r => (rkind r, option_map qn_uri (rid r))) u =
-    map (fun r => (rkind r, option_map qn_uri (rid r)))
-        (fst (fold_left (fun acc r =>
-                 match rid r with
-                 | None => ((fst acc ++ [r])%list, snd acc)
-                 | Some _ => if existsb (same_group r) (snd acc) then acc
-                             else ((fst acc ++ [r])%list, r :: snd acc)
-                 end) (brecs b) ([], []))).
+(* grouping: the result holds, in first-occurrence order, exactly one record per (kind, identifier)
+   group of the source and every anonymous record — nothing is dropped, nothing is duplicated, records of
+   different kinds that share an identifier stay apart (as repaired) *)
+Theorem C08_grouping : forall ft b u, unified_records ft b = OK u ->
+  map rkey u = map rkey (fst (first_fold (brecs b))).
+Proof. exact unified_keys. Qed.
+Print Assumptions C08_grouping.
+
+(* still stated only: the attribute set of a merged record is the union of its group's (needs
+   idempotence of normalisation lifted from values, IdemProofs.v, to attribute dictionaries);
+   decided per run by the independent merge oracle of this check *)
 
 (* merging computes: two entities and an agent on one identifier, an anonymous
    relation; the agent survives (repaired grouping), attribute sets are united *)
